@@ -17,7 +17,7 @@ func vrtHarness_C02_tdc() {
 	stream := vrtChoice(2) == 1
 	callers := 1 + vrtChoice(vrtParam("max_callers", 1))
 	closeAfter := vrtChoice(2) == 1
-	conn := &vrtConn{stream: stream, syncWrite: callers == 1 && vrtChoice(2) == 1}
+	conn := &vrtConn{stream: stream, syncWrite: callers == 1 && vrtChoice(2) == 1, eofWithData: closeAfter && stream && vrtChoice(2) == 1}
 	// natively a lost reply shows as this (generous) deadline; symbolically no timer fires
 	ctx, cancel := context.WithTimeout(context.Background(), 2*time.Second)
 	defer cancel()
